@@ -664,3 +664,86 @@ Example to_root_example :
   tree_parent [-1; 0; 1; 1; 3; 0] /\ to_root [-1; 0; 1; 1; 3; 0] 4 = Ok [1; 3; 1; 4; -1; 0].
 Proof. split; [apply tree_parentb_sound|]; vm_compute; reflexivity. Qed.
 
+
+(* ------------------------------------------------------------------ the edge list of a tree has no duplicates, so
+   re-rooting permutes it *)
+Lemma NoDup_app_disjoint : forall (A : Type) (l1 l2 : list A),
+    NoDup l1 -> NoDup l2 -> (forall x, In x l1 -> ~ In x l2) -> NoDup (l1 ++ l2).
+Proof.
+  induction l1 as [|a l1 IH]; intros l2 H1 H2 Hd; simpl; auto.
+  inversion H1 as [|? ? Ha H1']; subst. constructor.
+  - intros Hin. apply in_app_or in Hin. destruct Hin as [Hin|Hin]; [contradiction|].
+    apply (Hd a); simpl; auto.
+  - apply IH; auto. intros x Hx. apply Hd. now right.
+Qed.
+
+Lemma NoDup_flat_map : forall (A B : Type) (f : A -> list B) l,
+    NoDup l -> (forall x, In x l -> NoDup (f x)) ->
+    (forall x y e, In x l -> In y l -> In e (f x) -> In e (f y) -> x = y) ->
+    NoDup (flat_map f l).
+Proof.
+  induction l as [|a l IH]; intros Hnd Hf Hinj; simpl; [constructor|].
+  inversion Hnd as [|? ? Ha Hnd']; subst.
+  apply NoDup_app_disjoint.
+  - apply Hf. now left.
+  - apply IH; auto.
+    + intros x Hx. apply Hf. now right.
+    + intros x y e Hx Hy. apply Hinj; now right.
+  - intros e He Hin. apply in_flat_map in Hin. destruct Hin as [y [Hy Hey]].
+    assert (a = y) by (apply (Hinj a y e); simpl; auto). subst y. contradiction.
+Qed.
+
+Lemma no_two_cycle : forall c v p, tree_parent c -> zget c v = Some p -> zget c p = Some v -> False.
+Proof.
+  intros c v p [_ Hreach] Hv Hp.
+  destruct (Hreach v (zget_Some_range _ _ _ Hv)) as [l Hl].
+  pose proof (path_NoDup _ _ _ Hl) as Hnd.
+  destruct (path_inv _ _ _ Hl) as [[Hr _]|[p1 [l1 [H1 [Hp1 [Hl1 ->]]]]]].
+  - assert (p = -1) by congruence. subst p. apply zget_Some_range in Hp. lia.
+  - assert (p1 = p) by congruence. subst p1.
+    destruct (path_inv _ _ _ Hl1) as [[Hr _]|[p2 [l2 [H2 [Hp2 [Hl2 ->]]]]]].
+    + assert (v = -1) by congruence. subst v. apply zget_Some_range in Hv. lia.
+    + assert (p2 = v) by congruence. subst p2.
+      destruct (path_head _ _ _ Hl2) as [t ->].
+      inversion Hnd as [|? ? Hn _]; subst. apply Hn. simpl; auto.
+Qed.
+
+Lemma undirected_edges_NoDup : forall c, tree_parent c -> NoDup (undirected_edges c).
+Proof.
+  intros c Ht. unfold undirected_edges. apply NoDup_flat_map.
+  - apply zrange_NoDup.
+  - intros v Hv. destruct (pyget c v) as [p|]; [|constructor].
+    destruct (p =? -1); [constructor|]. constructor; [intros []|constructor].
+  - intros x y e Hx Hy Hex Hey.
+    apply in_zrange in Hx. apply in_zrange in Hy.
+    rewrite pyget_nonneg in Hex, Hey by lia.
+    destruct (zget c x) as [p|] eqn:Ex; [|inversion Hex].
+    destruct (zget c y) as [q|] eqn:Ey; [|inversion Hey].
+    destruct (p =? -1) eqn:Ep; [inversion Hex|]. destruct (q =? -1) eqn:Eq; [inversion Hey|].
+    destruct Hex as [<-|[]]. destruct Hey as [Heq|[]]. inversion Heq as [[Hmin Hmax]].
+    destruct (Z.eq_dec x y) as [|Hne]; auto. exfalso.
+    assert (x = q /\ y = p) by lia. destruct H as [-> ->].
+    eapply no_two_cycle; eauto.
+Qed.
+
+Theorem to_root_tree_perm : forall c i, tree_parent c -> 0 <= i < zlen c ->
+    exists c', to_root c i = Ok c' /\ length c' = length c /\
+               Permutation (undirected_edges c') (undirected_edges c) /\
+               roots c' = [i] /\ tree_parent c'.
+Proof.
+  intros c i Ht Hi.
+  destruct (to_root_tree c i Ht Hi) as [c' [H1 [H2 [H3 [H4 H5]]]]].
+  exists c'. split; auto. split; auto. split; [|split; auto].
+  apply NoDup_Permutation; auto using undirected_edges_NoDup.
+Qed.
+
+Theorem to_root_seq_tree_perm : forall indices c, tree_parent c -> (forall i, In i indices -> 0 <= i < zlen c) ->
+    exists c', to_root_seq c indices = Ok c' /\ length c' = length c /\
+               Permutation (undirected_edges c') (undirected_edges c) /\
+               roots c' = match indices with [] => roots c | _ => [last indices 0] end /\ tree_parent c'.
+Proof.
+  intros indices c Ht Hin.
+  destruct (to_root_seq_tree indices c Ht Hin) as [c' [H1 [H2 [H3 [H4 H5]]]]].
+  exists c'. split; auto. split; auto. split; [|split; auto].
+  apply NoDup_Permutation; auto using undirected_edges_NoDup.
+Qed.
